@@ -3,7 +3,8 @@
    gate's abstraction of a signed message, what Validation/HonestRound.v calls an honest item - so every one of
    them is accepted by every correct peer's validator, in any arrival order (honest_round_accepted_at_the_gate). *)
 From Coq Require Import List NArith ZArith Bool Lia.
-From SSV Require Import Qbft.Model Qbft.SyncRound Qbft.SyncGeneric Qbft.RecoverGeneric Qbft.RecoverPrepared Qbft.Bridge.
+From SSV Require Import Qbft.Model Qbft.SyncRound Qbft.SyncGeneric Qbft.RecoverGeneric Qbft.RecoverPrepared Qbft.Bridge
+     Qbft.Honest Qbft.DecidedProofs.
 From SSV Require Validation.Model Gen.ValidationConsts Validation.HonestRound.
 Import ListNotations.
 Local Open Scope N_scope.
@@ -83,22 +84,22 @@ Proof.
 Qed.
 
 (* every broadcast of every operator is an honest item of the gate *)
-Theorem round_broadcasts_are_honest_items : forall i m,
+Theorem round_broadcasts_are_honest_items : forall dsig i m,
   In i (committee qc) -> In m (round_broadcasts qc h ld i) ->
-  exists t s, gate_msg fdlen true m = HR.hmsg h VC.firstRound value_name fdlen 0 false 0 0 t s /\ HR.honest_item sh ld (t, s).
+  exists t s, gate_msg fdlen true m = HR.hmsg h VC.firstRound value_name fdlen 0 false 0 0 dsig t s /\ HR.honest_item sh ld dsig (t, s) /\ HR.is_dec t = false.
 Proof.
-  intros i m Hi Hm. unfold round_broadcasts in Hm. apply in_app_or in Hm.
+  intros dsig i m Hi Hm. unfold round_broadcasts in Hm. apply in_app_or in Hm.
   assert (Hi0 : i <> 0) by (intros ->; contradiction).
   destruct Hm as [Hm|[<-|[<-|[]]]].
   - destruct (N.eqb_spec i ld) as [->|]; [|destruct Hm]. destruct Hm as [<-|[]].
     exists VC.qbftProposalMsgType, ld. split.
     + unfold gate_msg, msg_of, own_core, HR.hmsg, value_name, start_value. cbn.
       rewrite N.eqb_refl. reflexivity.
-    + unfold HR.honest_item. repeat split; auto. apply in_committee_iff. exact Hi.
+    + split; [unfold HR.honest_item, HR.member; left; repeat split; auto; apply in_committee_iff; exact Hi|reflexivity].
   - exists VC.qbftPrepareMsgType, i. split; [reflexivity|].
-    unfold HR.honest_item. repeat split; auto; [apply in_committee_iff; exact Hi|discriminate].
+    split; [unfold HR.honest_item, HR.member; left; repeat split; auto; [apply in_committee_iff; exact Hi|discriminate]|reflexivity].
   - exists VC.qbftCommitMsgType, i. split; [reflexivity|].
-    unfold HR.honest_item. repeat split; auto; [apply in_committee_iff; exact Hi|discriminate].
+    split; [unfold HR.honest_item, HR.member; left; repeat split; auto; [apply in_committee_iff; exact Hi|discriminate]|reflexivity].
 Qed.
 
 End Gate.
@@ -138,27 +139,27 @@ Proof.
   inversion A; reflexivity.
 Qed.
 
-Theorem round2_broadcasts_are_honest_items : forall i m,
+Theorem round2_broadcasts_are_honest_items : forall dsig i m,
   In i live -> In m (round2_broadcasts qc h ld2 live i) ->
-  exists t s, gate_msg fdlen true m = HR.hmsg h 2 (value_name ld2) fdlen nrc2 false 0 0 t s /\ HR.honest_item sh ld2 (t, s).
+  exists t s, gate_msg fdlen true m = HR.hmsg h 2 (value_name ld2) fdlen nrc2 false 0 0 dsig t s /\ HR.honest_item sh ld2 dsig (t, s) /\ HR.is_dec t = false.
 Proof.
-  intros i m Hi Hm. unfold round2_broadcasts in Hm. cbn [app] in Hm.
+  intros dsig i m Hi Hm. unfold round2_broadcasts in Hm. cbn [app] in Hm.
   assert (Hic : In i (committee qc)) by (apply Hlive; exact Hi).
   assert (Hi0 : i <> 0) by (intros ->; contradiction).
   assert (Hin : V.in_committee i sh = true) by (apply (in_committee_iff qc sh Hcomm); exact Hic).
   destruct Hm as [<-|Hm].
   - exists VC.qbftRoundChangeMsgType, i. split; [reflexivity|].
-    unfold HR.honest_item. repeat split; auto; discriminate.
+    split; [unfold HR.honest_item, HR.member; left; repeat split; auto; discriminate|reflexivity].
   - apply in_app_or in Hm. destruct Hm as [Hm|[<-|[<-|[]]]].
     + destruct (N.eqb_spec ld2 i) as [->|]; [|destruct Hm]. destruct Hm as [<-|[]].
       exists VC.qbftProposalMsgType, i. split.
       * unfold gate_msg, prop2, own_core, HR.hmsg, value_name, start_value, nrc2. cbn.
         rewrite N.eqb_refl, map_length. reflexivity.
-      * unfold HR.honest_item. repeat split; auto.
+      * split; [unfold HR.honest_item, HR.member; left; repeat split; auto|reflexivity].
     + exists VC.qbftPrepareMsgType, i. split; [reflexivity|].
-      unfold HR.honest_item. repeat split; auto; discriminate.
+      split; [unfold HR.honest_item, HR.member; left; repeat split; auto; discriminate|reflexivity].
     + exists VC.qbftCommitMsgType, i. split; [reflexivity|].
-      unfold HR.honest_item. repeat split; auto; discriminate.
+      split; [unfold HR.honest_item, HR.member; left; repeat split; auto; discriminate|reflexivity].
 Qed.
 
 End Gate2.
@@ -188,12 +189,12 @@ Hypothesis Hlive : forall y, In y live -> In y (committee qc).
 
 Definition nlive : N := N.of_nat (length live).
 
-Theorem round2p_broadcasts_are_honest_items : forall i m,
+Theorem round2p_broadcasts_are_honest_items : forall dsig i m,
   In i live -> In m (round2p_broadcasts qc h ld1 ld2 live i) ->
-  exists t s, gate_msg fdlen true m = HR.hmsg h 2 (value_name ld1) fdlen (nrc2 qc live) true nlive nlive t s /\
-              HR.honest_item sh ld2 (t, s).
+  exists t s, gate_msg fdlen true m = HR.hmsg h 2 (value_name ld1) fdlen (nrc2 qc live) true nlive nlive dsig t s /\
+              HR.honest_item sh ld2 dsig (t, s) /\ HR.is_dec t = false.
 Proof.
-  intros i m Hi Hm. unfold round2p_broadcasts in Hm. cbn [app] in Hm.
+  intros dsig i m Hi Hm. unfold round2p_broadcasts in Hm. cbn [app] in Hm.
   assert (Hic : In i (committee qc)) by (apply Hlive; exact Hi).
   assert (Hi0 : i <> 0) by (intros ->; contradiction).
   assert (Hin : V.in_committee i sh = true) by (apply (in_committee_iff qc sh Hcomm); exact Hic).
@@ -201,17 +202,116 @@ Proof.
   - exists VC.qbftRoundChangeMsgType, i. split.
     + unfold gate_msg, rcp, HR.hmsg, HR.carries, value_name, start_value, nlive. cbn.
       rewrite N.eqb_refl, map_length. reflexivity.
-    + unfold HR.honest_item. repeat split; auto; discriminate.
+    + split; [unfold HR.honest_item, HR.member; left; repeat split; auto; discriminate|reflexivity].
   - apply in_app_or in Hm. destruct Hm as [Hm|[<-|[<-|[]]]].
     + destruct (N.eqb_spec ld2 i) as [->|]; [|destruct Hm]. destruct Hm as [<-|[]].
       exists VC.qbftProposalMsgType, i. split.
       * unfold gate_msg, prop2p, own_core, HR.hmsg, HR.carries, value_name, start_value, nrc2, nlive. cbn.
         rewrite N.eqb_refl, !map_length. reflexivity.
-      * unfold HR.honest_item. repeat split; auto.
+      * split; [unfold HR.honest_item, HR.member; left; repeat split; auto|reflexivity].
     + exists VC.qbftPrepareMsgType, i. split; [reflexivity|].
-      unfold HR.honest_item. repeat split; auto; discriminate.
+      split; [unfold HR.honest_item, HR.member; left; repeat split; auto; discriminate|reflexivity].
     + exists VC.qbftCommitMsgType, i. split; [reflexivity|].
-      unfold HR.honest_item. repeat split; auto; discriminate.
+      split; [unfold HR.honest_item, HR.member; left; repeat split; auto; discriminate|reflexivity].
 Qed.
 
 End Gate3.
+
+(* ---- the decided message of the fault-free round ------------------------------------------------------------- *)
+
+(* Every operator of the fault-free round decides when the first quorum of commits (delivered in committee order) has
+   arrived, and its controller broadcasts the aggregate of exactly those commits: signers sorted (node variant). *)
+Definition decided_signers (c : cfg) : list N := sort_n (firstn (N.to_nat (quorum c)) (committee c)).
+
+Definition decided_msg (c : cfg) (h ld : N) : smsg :=
+  SM {| c_type := T_COMMIT; c_height := h; c_round := FIRST_ROUND; c_root := hash (start_value ld);
+        c_data_round := NO_ROUND; c_signers := decided_signers c; c_full := start_value ld;
+        c_sig_ok := true; c_fmt_ok := true; c_ident := 0 |} [] [].
+
+Lemma same_root_fmsg : forall h ty rt a b, same_signing_root (fmsg h ty rt a) (fmsg h ty rt b) = true.
+Proof. intros. unfold same_signing_root, fmsg. cbn. rewrite !N.eqb_refl. reflexivity. Qed.
+
+Lemma decided_msg_is_the_aggregate : forall c h ld,
+  v_sort_agg (var c) = true -> firstn (N.to_nat (quorum c)) (committee c) <> [] ->
+  aggregate_commits c (map (fmsg h T_COMMIT (hash (start_value ld))) (firstn (N.to_nat (quorum c)) (committee c)))
+                    (start_value ld) = Some (decided_msg c h ld).
+Proof.
+  intros c h ld Hs Hne. unfold aggregate_commits, decided_msg, decided_signers.
+  destruct (firstn (N.to_nat (quorum c)) (committee c)) as [|a tl] eqn:E; [congruence|].
+  cbn [map].
+  assert (Hall : forallb (same_signing_root (fmsg h T_COMMIT (hash (start_value ld)) a))
+                         (map (fmsg h T_COMMIT (hash (start_value ld))) tl) = true).
+  { apply forallb_forall. intros m Hm. apply in_map_iff in Hm. destruct Hm as (b & <- & _). apply same_root_fmsg. }
+  rewrite Hall. cbn [negb]. rewrite Hs.
+  change (fmsg h T_COMMIT (hash (start_value ld)) a :: map (fmsg h T_COMMIT (hash (start_value ld))) tl)
+    with (map (fmsg h T_COMMIT (hash (start_value ld))) (a :: tl)).
+  rewrite all_signers_fmsg.
+  assert (Hsig : forallb (fun m => c_sig_ok (co m)) (map (fmsg h T_COMMIT (hash (start_value ld))) (a :: tl)) = true).
+  { apply forallb_forall. intros m Hm. apply in_map_iff in Hm. destruct Hm as (b & <- & _). reflexivity. }
+  rewrite Hsig. reflexivity.
+Qed.
+
+Lemma sorted_le_head : forall tl a, sorted_le (a :: tl) = true -> Forall (fun x => a <= x) tl.
+Proof.
+  induction tl as [|b tl2 IH]; intros a Hs; constructor.
+  - cbn [sorted_le] in Hs. apply andb_true_iff in Hs. apply N.leb_le. apply Hs.
+  - cbn [sorted_le] in Hs. apply andb_true_iff in Hs. destruct Hs as [Hab Hs2]. apply N.leb_le in Hab.
+    eapply Forall_impl; [|exact (IH b Hs2)]. intros x Hx. cbn in Hx. lia.
+Qed.
+
+Lemma sorted_le_tail : forall a tl, sorted_le (a :: tl) = true -> sorted_le tl = true.
+Proof.
+  intros a [|b tl2] Hs; [reflexivity|]. cbn [sorted_le] in Hs. apply andb_true_iff in Hs. apply Hs.
+Qed.
+
+Lemma sorted_nodup_increasing : forall l p,
+  sorted_le l = true -> NoDup l -> Forall (fun x => (p < x)) l -> HR.increasing p l.
+Proof.
+  induction l as [|a tl IH]; intros p Hs Hn Hf; [exact I|].
+  inversion Hf as [|? ? Hpa Hf']; subst. inversion Hn as [|? ? Hni Hn']; subst.
+  split; [exact Hpa|]. apply IH; [exact (sorted_le_tail a tl Hs)|exact Hn'|].
+  pose proof (sorted_le_head tl a Hs) as Hle. rewrite Forall_forall in *. intros x Hx.
+  specialize (Hle x Hx). assert (a <> x) by (intros ->; contradiction). lia.
+Qed.
+
+Section Decided.
+Variables (qc : cfg) (sh : V.share).
+Hypothesis Hcomm : V.s_committee sh = committee qc.
+Hypothesis Hquorum : V.s_quorum sh = quorum qc.
+Hypothesis Hnd : NoDup (committee qc).
+Hypothesis Hz : ~ In 0 (committee qc).
+Hypothesis Hq2 : 2 <= quorum qc.
+Hypothesis Hqn : quorum qc <= N.of_nat (length (committee qc)).
+
+Lemma decided_signers_length : length (decided_signers qc) = N.to_nat (quorum qc).
+Proof. unfold decided_signers. rewrite sort_n_length, firstn_length. lia. Qed.
+
+Theorem decided_signers_are_ok : HR.decided_signers_ok sh (decided_signers qc).
+Proof.
+  unfold HR.decided_signers_ok. rewrite decided_signers_length.
+  assert (Hin : forall x, In x (decided_signers qc) -> In x (committee qc)).
+  { intros x Hx. unfold decided_signers in Hx. apply (proj1 (sort_n_In _ x)) in Hx. exact (in_firstn_in N _ _ x Hx). }
+  split; [lia|]. split; [unfold V.has_quorum; rewrite Hquorum; apply N.leb_le; lia|].
+  split; [rewrite Hcomm; lia|]. split.
+  - apply sorted_nodup_increasing.
+    + unfold decided_signers. apply sort_n_sorted.
+    + unfold decided_signers. apply sort_n_NoDup. apply NoDup_firstn. exact Hnd.
+    + apply Forall_forall. intros x Hx. assert (x <> 0) by (intros ->; apply Hz; apply Hin; exact Hx). lia.
+  - apply Forall_forall. intros x Hx. split.
+    + intros ->. apply Hz. apply Hin. exact Hx.
+    + apply (in_committee_iff qc sh Hcomm). apply Hin. exact Hx.
+Qed.
+
+(* the gate's view of operator i's decided message is the decided item of sender i *)
+Theorem decided_msg_is_an_honest_item : forall h ld fdlen i,
+  gate_msg fdlen true (decided_msg qc h ld) =
+    HR.hmsg h VC.firstRound (value_name ld) fdlen 0 false 0 0 (fun _ => decided_signers qc) HR.tDecided i /\
+  HR.honest_item sh ld (fun _ => decided_signers qc) (HR.tDecided, i).
+Proof.
+  intros h ld fdlen i. split.
+  - unfold gate_msg, decided_msg, HR.hmsg, HR.carries, HR.mtype, HR.msigners, value_name, start_value. cbn.
+    rewrite N.eqb_refl. reflexivity.
+  - right. split; [reflexivity|]. exact decided_signers_are_ok.
+Qed.
+
+End Decided.
